@@ -9,13 +9,19 @@ Each process runs ``while True: if lock(): unlock()`` on one FilesystemLock obje
 the pids is a valid interleaving and "all interleavings up to length K" = all words of length K.
 
 case = {"n": live processes (pids 0..n-1), "dead": [pids without a process], "l0": None | pid
-        (content of a link left at the lock path), "sched": [pid, ...], "cas": bool}
+        (content of a link left at the lock path), "sched": [pid, ...], "cas": bool,
+        optional, objects handed across fork():
+        "held": h     process h already holds the lock (acquired on the free path before the schedule starts),
+        "ustart": [p] p's FilesystemLock is a copy of a locked object (locked=True) of its parent and its first
+                      call is unlock() -- it never locked anything itself,
+        "made_by": {"p": c}  p's object was constructed while os.getpid() returned c (built before a fork)}
 ``cas`` = repair simulation: the rmlink of the stale-lock path atomically refuses (ENOENT) when the link no
 longer holds the pid that process found dead.  It is never True for the cases that judge /repo as it is;
 it exists to show that model, correspondence and oracle accept a repaired behaviour silently.
 """
 from __future__ import annotations
 
+import copy
 import errno
 import itertools
 import re
@@ -72,6 +78,10 @@ class World:
         self.incall = {}            # pid -> "lock" | "unlock"
         self.lastread = {}          # pid -> last value readlink returned to it inside lock()
         self.holders = set()        # API level: lock() returned True, unlock() not yet finished
+        self.held = case.get("held")
+        self.ustart = set(case.get("ustart") or [])
+        self.made_by = {int(k): v for k, v in (case.get("made_by") or {}).items()}
+        self.override = None        # pid reported by os.getpid() while an object is being constructed
         # replay
         self.curp = None
         self.log = {p: [] for p in range(self.n)}
@@ -88,7 +98,36 @@ class World:
                 lk.acquire()
 
     def me(self):
+        o = getattr(self.tl, "override", None) if self.mode == "threads" else self.override
+        if o is not None:
+            return o
         return self.tl.pid if self.mode == "threads" else self.curp
+
+    def set_override(self, v):
+        if self.mode == "threads":
+            self.tl.override = v
+        else:
+            self.override = v
+
+    def make_obj(self, p, lockfile):
+        """the FilesystemLock process p uses: built under the pid recorded in made_by (default: p itself, or the
+        holder for inherited objects); inherited objects are copies of an object whose lock() returned True"""
+        inherited = p in self.ustart
+        parent = self.made_by.get(p, self.held if inherited and self.held is not None else p)
+        self.set_override(parent)
+        try:
+            obj = lockfile.FilesystemLock(NAME)
+            if inherited:
+                saved = lockfile.symlink
+                lockfile.symlink = lambda value, filename: None      # the parent's acquisition, on a free path
+                try:
+                    assert obj.lock() is True
+                finally:
+                    lockfile.symlink = saved
+                obj = copy.copy(obj)
+        finally:
+            self.set_override(None)
+        return obj
 
     def sfx(self, filename):
         return "" if filename == NAME else "@" + filename[len(NAME):] if filename.startswith(NAME) else "@" + filename
@@ -137,7 +176,7 @@ class World:
                 self.cur.append("sE" + self.sfx(filename))
                 return ("err", errno.EEXIST)
             self.fs[filename] = value
-            self.cur.append("s+" + self.sfx(filename))
+            self.cur.append(("s+" if value == str(p) else "s+!" + value) + self.sfx(filename))
             return ("ok", None)
         if name == "readlink":
             (filename,) = args
@@ -183,7 +222,19 @@ class World:
 
     # -- one process: the client program around the real lock()/unlock() ----------------------------------
     def program(self, p, lockfile):
-        lk = lockfile.FilesystemLock(NAME)
+        lk = self.make_obj(p, lockfile)
+        if p in self.ustart:
+            # a forked copy: unlock() on the inherited object, without ever having locked
+            self.incall[p] = "unlock"
+            try:
+                lk.unlock()
+                self.note(p, "=U")
+            except ValueError:
+                self.note(p, "=V")
+            except OSError as e:
+                if e.errno != errno.ENOENT:
+                    raise
+                self.note(p, "=O")
         while True:
             self.incall[p] = "lock"
             r = lk.lock()
@@ -253,6 +304,20 @@ def run_case(case, mode="replay") -> str:
                     raise _Hang()
                 if w.crash is not None:
                     raise w.crash
+        if w.held is not None:
+            # the holder acquires the free path before the schedule starts (its first primitive call)
+            assert case["l0"] is None and w.held < w.n and w.held not in w.dead
+            if mode == "threads":
+                w.cur = []
+                w.go[w.held].release()
+                if not w.back.acquire(timeout=10):
+                    raise _Hang()
+                if w.crash is not None:
+                    raise w.crash
+            else:
+                w.advance(w.held, lockfile)
+            if w.holders != {w.held}:
+                raise AssertionError("setup: the initial holder could not acquire a free path")
         for p in case["sched"]:
             if p >= w.n and p not in w.dead:
                 raise ValueError("bad case: scheduled pid is neither a process nor dead")
@@ -350,10 +415,13 @@ def oracle(case, obs):
         return Failure(case, "malformed trace", "trace")
     link = None if case["l0"] is None else str(case["l0"])   # content of the lock path (from the fs effect log)
     holders = []
+    held = case.get("held")
+    if held is not None:
+        link, holders = str(held), [held]
     lastread = {}
     robbed = None            # first step at which a stale-lock break removed a link naming a live pid
     call = {}                # pid -> dict(start_free: bool, solo: bool, steps: int, broke: bool) for the open lock() call
-    inunlock = set()
+    inunlock = set(case.get("ustart") or []) | ({held} if held is not None else set())
     last_mover = None
 
     def is_free(content):
@@ -386,6 +454,9 @@ def oracle(case, obs):
             c["steps"] += 1
         last_mover = p
         # --- effects on the lock path
+        if prim.startswith("s+!"):
+            return fail(k, f"lock() of process {p} created the link with content {prim[3:]}, not its own pid",
+                        "link-names-other-pid")
         if prim == "s+":
             link = str(p)
         elif prim.startswith("r") and prim != "rN":
@@ -421,14 +492,21 @@ def oracle(case, obs):
             if c["free"] and c["solo"]:
                 return fail(k, "a lock() call running alone (nobody else inside a call) on a free/stale path was refused", "solo-refused")
         elif ret in ("=U", "=V", "=O"):
-            if p in holders:
+            was_holder = p in holders
+            if was_holder:
                 holders.remove(p)
             inunlock.discard(p)
-            if ret != "=U":
-                return fail(k, "a holder's unlock() raised " + ("ValueError" if ret == "=V" else "OSError(ENOENT)"),
-                            "release")
-            if link is not None:
-                return fail(k, "unlock() returned but the link is still there", "release-link")
+            if not was_holder:
+                # unlock() by a process that never acquired (inherited object): must be refused, link untouched
+                if ret == "=U":
+                    return fail(k, f"unlock() by process {p}, which does not hold the lock, succeeded and removed "
+                                "the link" + (f" of holder {holders[0]}" if holders else ""), "unlock-by-non-owner")
+            else:
+                if ret != "=U":
+                    return fail(k, "a holder's unlock() raised " + ("ValueError" if ret == "=V" else "OSError(ENOENT)"),
+                                "release")
+                if link is not None:
+                    return fail(k, "unlock() returned but the link is still there", "release-link")
         elif ret:
             return fail(k, "lock() returned neither True nor False", "return-type")
         else:
@@ -463,6 +541,10 @@ F21 = {"n": 2, "dead": [2], "l0": 2, "sched": [0, 0, 0, 1, 1, 1, 1, 1, 0, 0, 1, 
 
 def corpus():
     return [
+        # daemonisation: object built by the launcher (pid 2, exited), locked by the surviving child 0; 1 contends
+        {"n": 2, "dead": [2], "l0": None, "sched": [0, 1, 1, 1, 1, 1, 0, 0], "cas": False, "made_by": {"0": 2}},
+        # pre-forking server: 0 holds, forked worker 1 calls unlock() on the inherited object, 2 contends
+        {"n": 3, "dead": [], "l0": None, "sched": [1, 2, 2, 2, 0, 0, 2], "cas": False, "held": 0, "ustart": [1]},
         F21,
         {"n": 2, "dead": [2], "l0": 2, "sched": [0, 0, 0, 1, 1, 1, 1, 1, 0, 0], "cas": False},
         {**F21, "cas": True},
@@ -498,6 +580,18 @@ def gen(rng, tier):
         sim = rng.sample(sim, 200)
     for w in sim:
         cases.append({"n": 2, "dead": [2], "l0": 2, "sched": w, "cas": True})
+    # lock objects handed across fork():
+    #  - built by a launcher that has exited (dead pid 2) or by the other live process, then used: every interleaving
+    kf = 8 if quick else 10
+    for made_by in ({"0": 2}, {"0": 1, "1": 0}):
+        for w in words(2, kf):
+            cases.append({"n": 2, "dead": [2], "l0": None, "sched": w, "cas": False, "made_by": made_by})
+    #  - process 0 holds; process 1 is a forked copy that calls unlock() on the inherited locked object; 2 contends
+    for w in words(3, 6 if quick else 8):
+        cases.append({"n": 3, "dead": [], "l0": None, "sched": w, "cas": False, "held": 0, "ustart": [1]})
+    for w in words(2, kf):
+        cases.append({"n": 2, "dead": [], "l0": None, "sched": w, "cas": False, "held": 0, "ustart": [1],
+                      "made_by": {"1": 0}})
     # random long schedules: 2-5 processes, bursts, dead pids among the scheduled ones, any initial link
     for _ in range(300 if quick else 5000):
         n = rng.randrange(1, 6)
@@ -507,14 +601,25 @@ def gen(rng, tier):
         for _ in range(rng.randrange(3, 14)):
             p = rng.choice(list(range(n)) + dead)
             sched += [p] * rng.choice([1, 1, 1, 2, 3, 4, 5, 7])
-        cases.append({"n": n, "dead": dead, "l0": l0, "sched": sched[:70], "cas": rng.random() < 0.15})
+        c = {"n": n, "dead": dead, "l0": l0, "sched": sched[:70], "cas": rng.random() < 0.15}
+        live = [p for p in range(n) if p not in dead]
+        if rng.random() < 0.35 and live:
+            if rng.random() < 0.6:
+                c["l0"], c["held"] = None, rng.choice(live)
+            others = [p for p in live if p != c.get("held") and p != c["l0"]]
+            c["ustart"] = sorted(rng.sample(others, rng.randrange(0, len(others) + 1)))
+            c["made_by"] = {str(p): rng.randrange(n + 3) for p in live if rng.random() < 0.4}
+        cases.append(c)
     return cases
 
 
 def to_coq(case):
     nat = lambda v: f"{v}%nat"
+    held = case.get("held")
     return (f"({coq_list(map(nat, case['dead']), 'nat')}, {coq_bool(bool(case.get('cas')))}, {nat(case['n'])}, "
             f"{coq_option(None if case['l0'] is None else nat(case['l0']), 'nat')}, "
+            f"{coq_option(None if held is None else nat(held), 'nat')}, "
+            f"{coq_list(map(nat, case.get('ustart') or []), 'nat')}, "
             f"{coq_list(map(nat, case['sched']), 'nat')})")
 
 
@@ -526,7 +631,8 @@ def shrink(case):
 
 def _hist(c, o):
     l0 = "free" if c["l0"] is None else "stale" if c["l0"] in c["dead"] else "live-link"
-    return f"n={c['n']} {l0}{' cas-sim' if c.get('cas') else ''}"
+    fork = " fork" if c.get("held") is not None or c.get("ustart") or c.get("made_by") else ""
+    return f"n={c['n']} {l0}{' cas-sim' if c.get('cas') else ''}{fork}"
 
 
 def _describe(c):
@@ -564,7 +670,10 @@ SPEC = Spec(
     rule="every interleaving (word over the pids) of the first 10 (quick) / 12 (thorough) primitive calls of 2 "
          "processes each running `while True: if lock(): unlock()`, for a stale link, and of the first 9 / 12 for a "
          "free path and a live outsider's link; the same for 3 processes and 6 / 8 calls (free, stale); the stale 2-process words again "
-         "under the repair simulation (200 sampled in quick); random schedules of up to 70 steps for 1-5 processes "
+         "under the repair simulation (200 sampled in quick); lock objects handed across fork -- built under another "
+         "(dead or live) pid and then used (2 processes, all words of length 8 / 10), an initial holder plus a forked copy "
+         "that calls unlock() on the inherited locked object plus a contender (3 processes, length 6 / 8; 2 processes, 8 / 10); "
+         "random schedules of up to 70 steps for 1-5 processes "
          "with dead pids; non-trivial = some lock() returned True and some symlink met EEXIST; distinct by "
          "(case, observation)",
     trusted=["hand-written model coq/C50/Model.v (tied by this correspondence run only)",
@@ -572,7 +681,9 @@ SPEC = Spec(
              "it does not, each primitive call is atomic (POSIX symlink/readlink/unlink on one directory entry); "
              "kill(pid,0) raises ESRCH exactly for the case's dead pids",
              "thread gate: a process thread runs only between the grant of its step and its next primitive call"],
-    assumptions=["a pid's liveness does not change during a run (no process dies or is born mid-run; no pid reuse)",
+    assumptions=["fork is represented by its effect on the lock object: which pid os.getpid() returned when the object was "
+                 "built, and an inherited copy with locked=True whose first call is unlock()",
+                 "a pid's liveness does not change during a run (no process dies or is born mid-run; no pid reuse)",
                  "only EEXIST / ENOENT / ESRCH errors occur (no EPERM from kill, no EACCES, no I/O errors)",
                  "POSIX branch of lockfile.py (the Windows emulation of symlink by mkdir+rename is not modelled)"],
 )
